@@ -8,6 +8,10 @@ Case (ids only; entity i = "pyscript.e<i>", attribute j = "x<j>", state value v 
               "watch": null | {"kind": "list"|"set", "names": [NAME, ...]}, "kwargs": null | [[key, n], ...]}, ...]
             in source order; decorators of one function are adjacent
    "hist":  [[OP, ...], ...]                        bursts: the writes of a burst are issued back to back, then settle
+   "sleeps": [[f, [ms, ...]], ...]   (optional)     suspension points of function f: task.sleep(ms/1000) followed by a
+                                                    second report of the kwargs the run sees after resuming; runs overlap
+   "gaps":  [ms, ...]                (optional)     virtual time let pass after each burst (default 0: later bursts arrive
+                                                    while earlier runs are still suspended)
   }
   ARG   = ["star", e] | ["expr", BEXP]
   BEXP  = ["eqc", OEXP, CONST] | ["nec", OEXP, CONST] | ["eqt", OEXP, OEXP] | ["net", OEXP, OEXP] | ["gtc", OEXP, n]
@@ -21,7 +25,9 @@ Case (ids only; entity i = "pyscript.e<i>", attribute j = "x<j>", state value v 
 Write number k (1-based over the flattened history) carries Context(id="pv<k>"), so a run names the event it belongs to.
 A request {"op": "names", "cases": [{"b": BEXP}, ...]} instead parses each rendered expression with the real AstEval and
 returns {"names": sorted(get_names()), "src": text} per case (no trigger is started).
-Observation: {"runs": [{"fn": f, "kw": [[key, KW], ...]}, ...] in start order, "err": [first log errors], "src": script}
+Each run fires pv_run when it starts and pv_res after each suspension point; the reports of one run are paired by the
+HA Context the run's task fires its events with (one fresh Context per run, independent of the interpreter state).
+Observation: {"runs": [{"fn": f, "kw": [[key, KW], ...], "res": [[[key, KW], ...], ...]}, ...] in start order, "err": [first log errors], "src": script}
   KW = ["none"] | ["sv", v, [[a, n], ...]] | ["state"] | ["ent", e] | ["ctx", k] | ["int", n] | ["other", text]
 """
 import json
@@ -157,6 +163,9 @@ def make_script(case):
             lines.append("@state_trigger(" + ", ".join(parts) + ")")
         lines.append(f"def pv_f{fn}(**kw):")
         lines.append(f"    event.fire('pv_run', fn={fn}, kw=kw)")
+        for ms in dict(map(tuple, case.get("sleeps") or [])).get(fn, []):
+            lines.append(f"    task.sleep({ms / 1000.0!r})")
+            lines.append(f"    event.fire('pv_res', fn={fn}, kw=kw)")
         lines.append("")
     return "\n".join(lines) + "\n"
 
@@ -213,8 +222,21 @@ async def run_case(case):
         env.write("c04.py", src)
         await env.reload()
         env.events.clear()
+        from homeassistant.core import callback as _cb
+
+        recs = []
+
+        @_cb
+        def _rec(event):
+            kw = event.data.get("kw") or {}
+            recs.append((event.event_type, event.context.id, event.data.get("fn"),
+                         sorted([KEY_IDS.get(key, 99), canon_kw(val)] for key, val in kw.items())))
+
+        hass.bus.async_listen("pv_run", _rec)
+        hass.bus.async_listen("pv_res", _rec)
+        gaps = case.get("gaps") or []
         k = 0
-        for burst in case["hist"]:
+        for bi, burst in enumerate(case["hist"]):
             for op in burst:
                 k += 1
                 ctx = Context(id=f"pv{k}")
@@ -223,14 +245,26 @@ async def run_case(case):
                 else:
                     hass.states.async_remove(ent(op[1]), context=ctx)
             await env.settle()
+            if bi < len(gaps) and gaps[bi] > 0:
+                await env.advance(gaps[bi] / 1000.0)
+        if case.get("sleeps"):
+            await env.advance(1.0 + sum(sum(ms) for _f, ms in case["sleeps"]) / 1000.0)
         runs = []
-        for (_t, typ, d) in env.events:
-            if typ != "pv_run":
-                continue
-            kw = d.get("kw") or {}
-            runs.append({"fn": d.get("fn"), "kw": sorted([KEY_IDS.get(key, 99), canon_kw(val)] for key, val in kw.items())})
+        by_ctx = {}
+        stray = 0
+        for typ, cid, fn, kw in recs:
+            if typ == "pv_run":
+                r = {"fn": fn, "kw": kw, "res": []}
+                runs.append(r)
+                if cid in by_ctx:
+                    stray += 1
+                by_ctx[cid] = r
+            elif cid in by_ctx and by_ctx[cid]["fn"] == fn:
+                by_ctx[cid]["res"].append(kw)
+            else:
+                stray += 1
         errs = [m.strip().splitlines()[-1][:160] if m.strip() else "" for (_n, lvl, m) in env.log.records if lvl in ("ERROR", "CRITICAL")]
-        return {"runs": runs, "err": errs[:4], "nerr": len(errs), "src": src}
+        return {"runs": runs, "err": errs[:4], "nerr": len(errs), "src": src, "stray": stray}
 
 
 async def names_cases(cases):
